@@ -5,8 +5,8 @@ Two labelled transition systems, both executable (`next`, `run`) so that the dri
 traces and `decide` can check witness runs:
 
 * `QSys` — the event queue: any number of posting goroutines (`PostEvent`, non-blocking, may drop;
-  `PostEventBlocking`; `SyncFunc` and `Resize` are `PostEvent`s), the FIFO channel with capacity
-  `qcap`, the application receiving events.
+  `PostEventBlocking`, which gives up once `Close` has completed; `SyncFunc` and `Resize` are
+  `PostEvent`s), the FIFO channel with capacity `qcap`, the application receiving events.
 * `SSys` — shutdown: the parser goroutine of ansi/parser.go (`run`, `emit`, `Close`, `WaitClose`;
   channel `sequences` capacity 2, `close`/`closed` capacity 1), the input goroutines of `openTty`
   (`select` over the parser channel, SIGWINCH and the kill signal; the one of the current session and
@@ -35,6 +35,8 @@ structure QSys where
   queue : List Ev := []
   delivered : List Ev := []
   dropped : List Ev := []
+  /-- `Close` has completed: `chQuit` is closed -/
+  quit : Bool := false
   deriving DecidableEq, Repr
 
 inductive QLabel
@@ -42,6 +44,11 @@ inductive QLabel
   | post (g : Nat) (blocking : Bool)
   /-- the application receives one event (`PollEvent` / `<-Events()`) -/
   | consume
+  /-- `Close` completes: `close(vx.chQuit)` -/
+  | quit
+  /-- a `PostEventBlocking` of goroutine `g` takes the `<-vx.chQuit` arm of its `select` (possible once
+  `chQuit` is closed, whether or not the queue has room): the event is discarded (F53 repaired) -/
+  | giveUp (g : Nat)
   deriving DecidableEq, Repr
 
 /-- Number of post attempts goroutine `g` has completed. -/
@@ -52,12 +59,21 @@ def qnext (qcap : Nat) (s : QSys) : QLabel → Option QSys
       let e : Ev := { g := g, i := countOf g s.posted, blocking := blocking }
       if s.queue.length < qcap then
         some { s with posted := s.posted ++ [e], queue := s.queue ++ [e] }
-      else if blocking then none            -- `vx.queue <- ev` blocks
+      else if blocking then none            -- the send arm of `PostEventBlocking` blocks (the other arm: `giveUp`)
       else some { s with posted := s.posted ++ [e], dropped := s.dropped ++ [e] }   -- `default:` arm
   | .consume =>
       match s.queue with
       | [] => none
       | e :: q => some { s with queue := q, delivered := s.delivered ++ [e] }
+  | .quit => some { s with quit := true }
+  | .giveUp g =>
+      let e : Ev := { g := g, i := countOf g s.posted, blocking := true }
+      if s.quit then some { s with posted := s.posted ++ [e], dropped := s.dropped ++ [e] } else none
+
+/-- labels of the running session (before `Close` completes) -/
+def QLabel.running : QLabel → Bool
+  | .post _ _ | .consume => true
+  | _ => false
 
 def qrun (qcap : Nat) : QSys → List QLabel → Option QSys
   | s, [] => some s
